@@ -191,7 +191,8 @@ def _check_specific_rule_ignore(line: str, rule_id: str) -> bool:
     space_match = re.search(r"ignore-file\s+([^\s#]+(?:\s+[^\s#]+)*)", line, re.IGNORECASE)
     if space_match:
         return check_space_separated_rules(space_match.group(1), rule_id)
-    return False
+    # Bare "ignore-file" names no rule: it applies to all rules
+    return True
 
 
 def _check_specific_rule_in_line(code: str, rule_id: str) -> bool:
@@ -202,6 +203,9 @@ def _check_specific_rule_in_line(code: str, rule_id: str) -> bool:
     space_match = re.search(r"ignore\s+([^\s#]+(?:\s+[^\s#]+)*)", code, re.IGNORECASE)
     if space_match:
         return check_space_separated_rules(space_match.group(1), rule_id)
+    if re.search(r"(?:thailint|design-lint):\s*ignore\s*(?:$|#|//)", code, re.IGNORECASE):
+        # Bare "ignore" names no rule: it applies to all rules
+        return True
     return "ignore-all" in code.lower()
 
 
@@ -263,9 +267,6 @@ def _process_block_line(
 
 def _handle_block_end(line_num: int, violation: "Violation", state: _BlockState) -> bool | None:
     """Handle block end marker."""
-    if state.in_block and line_num > violation.line:
-        if rules_match_violation(state.rules, violation.rule_id):
-            return True
     state.in_block = False
     state.rules = set()
     return None
